@@ -18,11 +18,9 @@ def configs(tier):
     if tier == 'quick': return q
     return q + [
         ('attributes: 3occ x 3 slots', dict(family='one_level', fam_kw=dict(occ=3, slots=0, attrs=3, text=False, leaf_form=False, p_form=False, pool=3))),
-        ('children: 3occ x 3slots', dict(family='one_level', fam_kw=dict(occ=3, slots=3, attrs=0, text=False, leaf_form=False, p_form=False, pool=3))),
         ('children: 4occ x 2slots', dict(family='one_level', fam_kw=dict(occ=4, slots=2, attrs=0, text=False, leaf_form=False, p_form=False, pool=3))),
         ('documents: root 3docs x 2slots', dict(family='root_level', fam_kw=dict(docs=3, slots=2, attrs=0, text=False, leaf_form=False, root_form=False, pool=3))),
         ('documents: root all 2docs', dict(family='root_level', fam_kw=dict(docs=2, slots=2, attrs=2, text=True, leaf_form=False, root_form=False, pool=3))),
-        ('struct order: 2occ x 2slots x 2grandchildren', dict(family='one_level', fam_kw=dict(occ=2, slots=2, gslots=2, attrs=0, text=False, leaf_form=False, p_form=False, pool=2))),
     ]
 
 def main():
@@ -34,7 +32,7 @@ def main():
     ]
     if c.setup():
         for label, kw in configs(c.tier):
-            c.run(label, 'rsym.hr', 'FieldOrder', kw, time_cap=200 if c.tier == 'quick' else 900)
+            c.run(label, 'rsym.hr', 'FieldOrder', kw, time_cap=600 if c.tier == 'quick' else 900)
     c.finish(bounds={'skeletons': [l for l, _ in configs(c.tier)]}, outside=['documents outside the skeletons', 'names outside the pool'],
              trusted=['rsym + models', 'z3', 'output reader (checks/outreader)', 'tools/replay'],
              technique='symbolic execution of parser + renderer under both sort options; first-appearance order oracle as z3 formula, decided per path')
